@@ -195,6 +195,23 @@ theorem splitRun_inv_reverse {S C : Type} (A B : C → S → S) (ng : C → C)
     cases b <;>
       simp only [List.map_cons, List.reverse_cons, splitRun, splitRun_append, ih, hA, hB]
 
+theorem opRun_append {O S : Type} (φ : O → S → S) (l₁ l₂ : List O) (s : S) :
+    opRun φ (l₁ ++ l₂) s = opRun φ l₂ (opRun φ l₁ s) := by
+  induction l₁ generalizing s with
+  | nil => rfl
+  | cons a r ih => simp only [List.cons_append, opRun, ih]
+
+theorem opRun_inv_reverse {O S : Type} (φ : O → S → S) (ng : O → O) (hφ : ∀ o s, φ (ng o) (φ o s) = s)
+    (l : List O) (s : S) : opRun φ ((l.map ng).reverse) (opRun φ l s) = s := by
+  induction l generalizing s with
+  | nil => rfl
+  | cons a r ih => simp only [List.map_cons, List.reverse_cons, opRun, opRun_append, ih, hφ]
+
+theorem opRun_palindrome {O S : Type} (φ : O → S → S) (ng : O → O) (hφ : ∀ o s, φ (ng o) (φ o s) = s)
+    (l : List O) (hl : l.reverse = l) (s : S) : opRun φ (l.map ng) (opRun φ l s) = s := by
+  have := opRun_inv_reverse φ ng hφ l s
+  rwa [← List.map_reverse, hl] at this
+
 theorem iter_succ_right {S : Type} (f : S → S) (n : Nat) (s : S) : iter f (n + 1) s = f (iter f n s) := by
   induction n generalizing s with
   | zero => rfl
